@@ -40,6 +40,9 @@ def _wire(out, spec):
             shared >> inp
         elif kind == "next":
             out >> fm.adapters.NextTime() >> inp
+        elif kind == "dfix_next":  # push-based adapter that asks the output for an OLDER time when notified
+            from datetime import timedelta
+            out >> fm.adapters.DelayFixed(timedelta(microseconds=2)) >> fm.adapters.NextTime() >> inp
         elif kind == "scale2_next":  # notifications have to travel through two pass-through adapters
             out >> fm.adapters.Scale(1.0) >> fm.adapters.Scale(1.0) >> fm.adapters.NextTime() >> inp
         elif kind == "scale2_linear":
@@ -96,11 +99,18 @@ def h_events(ctx, _holder=None):
         if ev == 0:
             t = t0 if not pubs else pubs[-1] + ctx.td(f"g{i}", lo_us=1)
             v = float(len(pubs))
+            try:
+                if spill == "masked":
+                    real.push_data(np.ma.masked_array(np.array(v), mask=False), t)
+                else:
+                    real.push_data(np.array(v), t)
+            except FinamTimeError:
+                # a push-based end point pulls from inside the notification: the history it needs was dropped
+                ctx.fail("publication-fails-because-history-was-dropped", {"sig": "drop", "consumers": str(spec)})
+                return
             if spill == "masked":
-                real.push_data(np.ma.masked_array(np.array(v), mask=False), t)
                 twin.push_data(np.ma.masked_array(np.array(v), mask=False), t)
             else:
-                real.push_data(np.array(v), t)
                 twin.push_data(np.array(v), t)
             pubs.append(t)
             # push-based adapters pulled at the publication time
@@ -296,6 +306,7 @@ def families(tier):
         ("two_behind_one_delay_adapter", ["shared_dfix", "shared_dfix"], 5, 6),
         ("next_and_direct", ["next", "direct"], 4, 6),
         ("next_behind_two_adapters", ["scale2_next", "direct"], 4, 5),
+        ("delayed_next_and_direct", ["dfix_next", "direct"], 4, 5),
         ("linear_behind_two_adapters", ["scale2_linear"], 0, 5),
         ("linear_and_direct", ["linear", "direct"], 0, 5),
         ("three_direct", ["direct", "direct", "direct"], 0, 6),
